@@ -1216,6 +1216,13 @@ func (vr *voterecords) countWithExpels(
 			case base.VoteResultDraw:
 			case base.VoteResultMajority:
 				majority = m[majoritykey]
+
+				// NOTE majority should be voted with these expels; expel
+				// voteproof, which has the different expels with it's
+				// majority is invalid.
+				if !isExpelsOfBallotFact(majority, expels) {
+					return false
+				}
 			default:
 				return false
 			}
@@ -1414,6 +1421,30 @@ func extractExpelsFromBallot(
 	m[2] = expels
 
 	return m, true
+}
+
+func isExpelsOfBallotFact(fact base.BallotFact, expels []base.SuffrageExpelOperation) bool {
+	wf, ok := fact.(isaac.ExpelBallotFact)
+	if !ok {
+		return true
+	}
+
+	expelfacts := wf.ExpelFacts()
+
+	switch {
+	case len(expelfacts) < 1:
+		return true
+	case len(expelfacts) != len(expels):
+		return false
+	}
+
+	for i := range expelfacts {
+		if !expelfacts[i].Equal(expels[i].Fact().Hash()) {
+			return false
+		}
+	}
+
+	return true
 }
 
 func isNewVoteproofWithSuffrageConfirmFunc(isSuffrageConfirm bool) func(isaac.LastPoint, base.Voteproof) bool {
